@@ -1335,14 +1335,13 @@ namespace pika::threads::detail {
 
         std::atomic<pika::runtime_state>& state = sched_->Scheduler::get_state(virt_core);
 
-        // inform the scheduler to stop the virtual core
-        pika::runtime_state oldstate = state.exchange(runtime_state::stopping);
-
-        if (oldstate > runtime_state::stopping)
+        // inform the scheduler to stop the virtual core. A thread that is already terminating or
+        // stopped must keep that state: it is never lowered to stopping, not even transiently
+        // (the worker itself may store stopped at any moment).
+        pika::runtime_state oldstate = state.load();
+        while (oldstate < runtime_state::stopping &&
+            !state.compare_exchange_weak(oldstate, runtime_state::stopping))
         {
-            // If thread was terminating or already stopped we don't want to
-            // change the value back to stopping, so we restore the old state.
-            state.store(oldstate);
         }
 
         PIKA_ASSERT(oldstate == runtime_state::starting || oldstate == runtime_state::running ||
